@@ -586,9 +586,10 @@ def run(ctx):
                     sig["outcome"] = vv["lastkind"]   # transport-level outcome (tmpnet / tempnet / permnet / hung / close)
             if vv["kind"] == "cfg-dependent-outcome":
                 sig["case"] = cfg.get("name")
-            if vv["kind"] in ("gave-up-early", "late-return-after-deadline") and cfg.get("dl"):
+            if vv["kind"] in ("gave-up-early", "late-return-after-deadline", "no-return") and cfg.get("dl"):
                 # RetryConfig value class of the scenario (facts of the Cfg line and of the V record, no judgement)
                 me = cfg.get("maxel", 0)
+                sig["backoff"] = "zero-interval" if cfg.get("enabled") and min(cfg.get("initial", 1), cfg.get("maxint", 1)) == 0 else "nonzero"
                 sig["limit"] = "none(MaxElapsedTime=0)" if me == 0 else ("beyond-default" if me > 60_000_000 else "configured")
                 sig["throttle"] = "beyond-default-limit" if vv["thr"] > 60_000_000 else ("hint" if vv["thr"] > 0 else "none")
                 sig["caller"] = "short-deadline"
